@@ -183,6 +183,45 @@ def run(ck: Check):
         c02_datadrift.run(ck)
     except ImportError:
         ck.notes.append("IncrementalKSTest / streaming MMD reset clause: covered once their models exist (C09/C11)")
+    # KSWIN where the random draw DECIDES (a large alpha on a noisy stream: the p-value straddles alpha from draw to draw),
+    # followed long enough after the reset for the window to fill again: with NumPy's generator put in the same state, the
+    # reset detector and a newly constructed one must then report the same flags (own generator: independent of the above)
+    import random as _random
+    from frouros.detectors.concept_drift import KSWIN as _KSWIN, KSWINConfig as _KSWINConfig
+
+    prng = _random.Random(20202)
+    for k in range(3 if not thorough else 12):
+        n, test = prng.choice([(12, 4), (20, 6)])
+        kw = dict(alpha=prng.choice([0.3, 0.5]), seed=prng.randrange(1000), min_num_instances=n, num_test_instances=test)
+        pre = [prng.gauss(0, 1) for _ in range(n + prng.choice([3, 25]))]
+        suf = [prng.gauss(0, 1) for _ in range(n + 60)]
+        s2 = prng.randrange(10**6)
+        try:
+            d1 = _KSWIN(config=_KSWINConfig(**kw))
+            for v in pre:
+                d1.update(value=v)
+            d1.reset()
+            np.random.seed(s2)
+            r1 = []
+            for v in suf:
+                d1.update(value=v)
+                r1.append((bool(d1.drift), int(d1.num_instances), [float(x) for x in d1.window]))
+            d2 = _KSWIN(config=_KSWINConfig(**kw))
+            np.random.seed(s2)
+            r2 = []
+            for v in suf:
+                d2.update(value=v)
+                r2.append((bool(d2.drift), int(d2.num_instances), [float(x) for x in d2.window]))
+        except Exception as e:  # noqa: BLE001
+            ck.violation(dict(clause="raises", detector="KSWIN", error=type(e).__name__, scenario="draw-decides"), dict(config=kw, error=repr(e)))
+            continue
+        flips = sum(1 for a, b_ in zip(r1[:-1], r1[1:]) if a[0] != b_[0])
+        ck.case(dict(detector="KSWIN", config=kw, kind="draw-decides-after-reset", prefix_len=len(pre), drift_flag_changes=flips), nontrivial=flips > 0, key=repr(("kswin-draw", kw, pre[:3], s2)))
+        ck.count("kswin_draw_decides_cases")
+        if r1 != r2:
+            step = next(i for i, (a, b_) in enumerate(zip(r1, r2)) if a != b_)
+            ck.violation(dict(clause="reset-behaviour", detector="KSWIN", scenario="draw-decides"),
+                         dict(what="after reset() (NumPy's global generator re-seeded identically) KSWIN's outputs differ from those of a newly constructed detector", config=kw, prefix=pre, suffix=suf[: step + 1], reseed=s2, step=step, after_reset=r1[step][:2], fresh=r2[step][:2]))
     # model correspondence on the same histories
     models = run_models("C02", corr)
     from detectors import corr_compare
